@@ -173,18 +173,59 @@ func checkC01Accepted(c *TypingCase) *Outcome {
 
 var c01acc = Register(&Prop[TypingCase]{ID: "C01", Name: "accepted-preservation", Gen: genTypingCase, Check: checkC01Accepted})
 
+// ---- preservation for whatever environment the Callable lets through: C07's pairs (compile-time
+// environment, run-time environment derived by mutations). Whether the run-time environment
+// should have been refused is C07's subject; here: IF the Callable evaluates over it and yields a
+// value, that value is a well-formed value of the type inferred at compile time.
+
+func checkC01Env(c *EnvCase) *Outcome {
+	pc := &c.ProgCase
+	r := refRun(pc)
+	if r.RefErr != nil {
+		return skip("harness:reference-rejects-generated-program")
+	}
+	produced, nonconf := false, !conforms(c.Env, c.Vals1) || c.Mixed
+	for _, be := range []run.Backend{run.VMSwitch, run.Closure, run.Interp} {
+		en := run.NewEngine(be, pc.Extra)
+		e0, ok0 := envObject(en, c.Form0, c.Vals, true)
+		e1, ok1 := envObject(en, c.Form1, c.Vals1, false)
+		if !ok0 || !ok1 || c.Mixed {
+			return skip("form-unavailable")
+		}
+		var callable yae.Callable
+		var cerr error
+		if p := run.Guard(func() { callable, cerr = en.E.Compile(r.Src, e0) }); p != nil || cerr != nil {
+			return skip("does-not-compile(C07)")
+		}
+		var v *val.Val
+		var err error
+		if p := run.Guard(func() { v, err = callable(e1) }); p != nil || err != nil || v == nil {
+			continue
+		}
+		produced = true
+		mv, probs := run.FromYaeVal(v, r.RefType)
+		if len(probs) > 0 || mv == nil {
+			return bad("%s: the Callable evaluated over the run-time environment and produced a value that is not a well-formed %s: %v\n src: %s\n E0(%s)=%s | E1(%s)=%s | muts=%v", be, r.RefType, probs, r.Src, c.Form0, envSummary(pc), c.Form1, valsSummary(c.Vals1), c.Muts)
+		}
+	}
+	return ok(produced && len(c.Muts) > 0, fmt.Sprintf("env-preservation:produced=%v", produced), fmt.Sprintf("env-preservation:run-time-env-differs=%v", nonconf))
+}
+
+var c01env = Register(&Prop[EnvCase]{ID: "C01", Name: "environment-preservation", Gen: genEnvCase, Check: checkC01Env})
+
 var c01opt = gen.ProgOpt{Fuel: 4, Partial: false, Sugar: true, NonFinite: true, Maybe: true, Times: true, Harness: true}
 
 var c01 = Register(&Prop[ProgCase]{ID: "C01", Name: "preservation", Gen: genProgCase(c01opt, run.StdHarness), Check: checkC01})
 
 func TestC01(t *testing.T) {
-	R.Rule = "well-typed programs over literals, variables, lists, maps, objects, member / subscript access, overloaded and polymorphic calls; every object occurrence (literal elements, conditional arms, typing environment, run-time values) written in an independently drawn field order; four back ends; plus member / subscript paths into reflect-built Go host values (two values of one Go type in a row), whose results must be well-formed values of the type inferred against that host data; plus programs mutated towards ill-typedness (C05's catalogue, user overloads): whenever yae's own checker accepts one with type T (the reference is not consulted), every value produced must be a well-formed value of T; oracle: inferred type = reference type and checked walk of every produced value (tag of every component equals the declared component type, no nil component, map entries under the key their text denotes); non-trivial = a value was produced, the program has a composite result or a member/subscript access, and one object type occurs in two field orders or a polymorphic / overloaded call is present"
+	R.Rule = "well-typed programs over literals, variables, lists, maps, objects, member / subscript access, overloaded and polymorphic calls; every object occurrence (literal elements, conditional arms, typing environment, run-time values) written in an independently drawn field order; four back ends; plus member / subscript paths into reflect-built Go host values (two values of one Go type in a row), whose results must be well-formed values of the type inferred against that host data; plus programs mutated towards ill-typedness (C05's catalogue, user overloads): whenever yae's own checker accepts one with type T (the reference is not consulted), every value produced must be a well-formed value of T; plus C07's pairs of compile-time and mutated run-time environments: whenever the Callable evaluates over the run-time environment and yields a value, it is a well-formed value of the type inferred at compile time; oracle: inferred type = reference type and checked walk of every produced value (tag of every component equals the declared component type, no nil component, map entries under the key their text denotes); non-trivial = a value was produced, the program has a composite result or a member/subscript access, and one object type occurs in two field orders or a polymorphic / overloaded call is present"
 	R.Assume = []string{"ref.Check encodes the typing rules of C05's statement"}
 	reportKnown(t, "C01")
 	runRegress(t, "C01")
 	c01.Run(t, budget(6000, 320000))
 	c01host.Run(t, budget(2500, 160000))
 	c01acc.Run(t, budget(3000, 160000))
+	c01env.Run(t, budget(2500, 120000))
 }
 
 // ---- preservation over host data: values supplied by Go structs / slices / maps
